@@ -308,7 +308,7 @@ def crcRange (img : Bytes) (lo hi : Nat) : Nat := crc32 ((img.drop lo).take (hi 
     (identity codec: nothing is compressed): length, CRC of the whole image and of its five parts cut at the
     superblock's table starts, the WriteAt list and table starts the REGION model computes from the sizes of the
     pieces (must describe the same image), and whether the model's reader, run on the model's image, returns the
-    expected walk (rt) -/
+    expected walk (rt), and whether the file list is inside the limits of theorem writer_reader_roundtrip (lim) -/
 def mkImgOp (args : List String) : String :=
   let o : WOpt := { bs := argNatD args "bs" 4096, noCompData := true, noCompFrag := true, optBytes := (argHex args "opt").getD [],
                     exportable := argNatD args "exp" 1 == 1, modTime := argNatD args "mtime", compression := argNatD args "comp" 1,
@@ -325,7 +325,39 @@ def mkImgOp (args : List String) : String :=
   let rt := match readImageS idCodec dev (fuel + 1) with
     | some (sb', es) => sb' == sb && es == expectWalk fl b.inodes (fuel + 1) [] 0
     | none => false
-  s!"n={img.length}\tcrc={crc32 img}\tc0={crcRange img 0 96}\tc1={crcRange img 96 sb.inodeStart}\tc2={crcRange img sb.inodeStart sb.dirStart}\tc3={crcRange img sb.dirStart sb.fragStart}\tc4={crcRange img sb.fragStart sb.bytesUsed}\treg={if regOK then 1 else 0}\trt={if rt then 1 else 0}"
+  s!"n={img.length}\tcrc={crc32 img}\tc0={crcRange img 0 96}\tc1={crcRange img 96 sb.inodeStart}\tc2={crcRange img sb.inodeStart sb.dirStart}\tc3={crcRange img sb.dirStart sb.fragStart}\tc4={crcRange img sb.fragStart sb.bytesUsed}\treg={if regOK then 1 else 0}\trt={if rt then 1 else 0}\tlim={if limitsB idCodec o fl fuel && fitsB fl (fuel + 1) 0 then 1 else 0}"
+
+/-- sqfs.lookup kind=frag|id|export loc= n= after=hex (ents=start:size:comp,… | ids=… | refs=blk:off,…) → the bytes a
+    lookup-table writer lays down at `loc` (metadata blocks of 8 KiB of entries, then the index of 8-byte pointers):
+    length, index location, CRC, number of blocks; and what the table's reader (`readFragTable` / `readIdTable`)
+    returns for a superblock that names `n` entries, on a device that holds these bytes followed by `after` -/
+def lookupOp (args : List String) : String :=
+  let kind := (arg args "kind").getD "frag"
+  let loc := argNatD args "loc"
+  let n := argNatD args "n"
+  let after := (argHex args "after").getD []
+  let stream : Bytes :=
+    if kind == "frag" then fragStream ((triples ((arg args "ents").getD "-")).map fun (s, z, cf) => ⟨s, z, cf == 1⟩)
+    else if kind == "id" then idStream (lst args "ids")
+    else exportStream (pairs ((arg args "refs").getD "-"))
+  let blocks := metaChunks stream
+  let tab := metaTable idCodec true blocks
+  let idx := lookupIndex idCodec true loc blocks
+  let idxLoc := loc + tab.length
+  let bytes := tab ++ idx
+  let dev := devOf (ByteArray.mk ((zeros loc ++ bytes ++ after).toArray)) 0
+  let rd :=
+    if kind == "frag" then
+      match readFragTable idCodec dev idxLoc n with
+      | none => "err"
+      | some es =>
+        let txt := ";".intercalate (es.map fun f => s!"{f.start}:{f.size}:{if f.compressed then 1 else 0}")
+        s!"{es.length}:{crc32 txt.toUTF8.toList}"
+    else if kind == "id" then
+      let ids := readIdTable idCodec dev idxLoc n
+      s!"{ids.length}:{crc32 (natsStr ids).toUTF8.toList}"
+    else "-"
+  s!"w={bytes.length}\tidx={idxLoc}\tcrc={crc32 bytes}\tblocks={blocks.length}\tr={rd}"
 
 end Driver.Sqfs
 
@@ -355,6 +387,7 @@ partial def loop (h : IO.FS.Stream) (out : IO.FS.Stream) : IO Unit := do
       | "sqfs.getdir" => Driver.Sqfs.getDirOp args
       | "sqfs.imgrd" => Driver.Sqfs.imgRdOp args
       | "sqfs.mkimg" => pure (Driver.Sqfs.mkImgOp args)
+      | "sqfs.lookup" => pure (Driver.Sqfs.lookupOp args)
       | _ => pure "unknown-op"
     out.putStrLn s!"model\t{id}\t{r}"
   | _ => pure ()
